@@ -1,0 +1,13 @@
+//go:build verif
+
+// Contracts for the bmverif deductive checker (comment-only; compiled only under -tags verif).
+
+package simbox
+
+//@ props C09
+
+// A delay model draws from the process-wide math/rand/v2 source by design (a randomised simulation); the
+// simulation-frame contracts exclude it by precondition, this contract only records that it changes no VM state.
+//@ func (d *DelayDistribution) GetValue() int32
+//@   assigns nothing
+//@   trusted
